@@ -4,6 +4,9 @@ import json, os
 HERE = os.path.dirname(os.path.dirname(os.path.abspath(__file__)))
 
 CHECKS = {
+ "C18": dict(level="exploration", engine="driver + rapidcheck + hypothesis", technique="exhaustive generator-output diff (18 files) and exhaustive ELF inspection; generated-input execution of every assembly routine - natively through an ABI trampoline (x86-64), in a freestanding -m32 program (i386), and by instruction-level interpreters of the file text (other targets) - against the reference permutation and ABI rules",
+             text="Generator identity and executable-stack freedom are finite and enumerated completely; functional correctness and ABI conformance of the assembly text are explored with generated states, rounds and register contents against the independent reference permutation through each backend's documented state layout.",
+             note="Interpreters are part of the trusted base (cross-checked on the unchanged tree); files not yet covered by execution are listed under coverage.uncovered, never silently passed.", ref="4/C18"),
  "C11": dict(level="exploration", engine="rapidcheck + valgrind", technique="rapidcheck-generated public shapes x random secrets with memcheck definedness used as a dynamic taint oracle on the shipped -O3 object code (assembly included); VALGRIND_COUNT_ERRORS brackets each case so reports shrink",
              text="32 keyed primitives; every key/message/password/system-source/masking-word byte is marked undefined, public values stay defined, outputs and the accept/reject result are declassified after the call; memcheck then reports exactly the conditional jumps and address computations that depend on secrets. Exploration: the oracle is binary-level and exact for executed paths; the generator covers every length branch (0..5 blocks, rate-1/rate/rate+1).",
              note="Dynamic (executed paths only); no view of instruction timing or micro-architecture; trusts memcheck's definedness propagation; C++ wrappers that branch on the (public) accept/reject result are not tainted.", ref="4/C11"),
